@@ -43,6 +43,7 @@ pub fn deep_blocks(spec: SpecId) -> Vec<Case> {
         blocks::funding_chain(spec, 3),
         blocks::incr_same_slot(spec, 3),
         blocks::indirect_chain(spec, 3),
+        blocks::late_write_chain(spec),
     ]
 }
 
@@ -62,9 +63,12 @@ pub fn jobs(tier: Tier) -> Vec<Job> {
             }
         }
     }
+    // the validation/finality protocol at its own granularity, two deviations deeper
+    for c in &deep_blocks(spec) {
+        v.push(pipeline_job("c01-depth", c, &RunCfg::parallel(2), FOCUS_VALIDATION, if tier == Tier::Quick { 4 } else { 5 }, true));
+    }
     match tier {
         Tier::Quick => {
-            v.push(pipeline_job("c01-depth", &blocks::nonce_chain(spec, 3), &RunCfg::parallel(2), COARSE, 3, true));
             v.extend(sweep_jobs("c01-sweep", 2, &[SpecId::BERLIN, SpecId::CANCUN, SpecId::PRAGUE], &[1, 2], &[false, true], 1, true));
         }
         Tier::Thorough => {
